@@ -26,7 +26,13 @@ func (core *JApiCore) processContext(d *directive.Directive, root *[]*directive.
 				core.currentContextDirective.Type() == directive.URL
 
 			if isURL {
-				if core.currentContextDirective.HasExplicitContext {
+				// The method starts a new root, which would leave every open context: not possible while one of them
+				// is explicit (the URL itself, or a MACRO around it), an explicit context is closed by its parenthesis only.
+				explicit := false
+				for p := core.currentContextDirective; p != nil; p = p.Parent {
+					explicit = explicit || p.HasExplicitContext
+				}
+				if explicit {
 					return d.KeywordError(fmt.Sprintf(
 						"%s %q with the \"Path\" parameter",
 						jerr.IncorrectDirectiveContext,
